@@ -58,6 +58,8 @@ class Stack:
         self.specs = {s["name"]: s for s in device_specs}
         self.router = router_cls()
         self.router_log = []  # (origin, sender_name, view)
+        self.router_cause = []  # parallel to router_log: tag of the client message being answered, or None
+        self._cause_stack = []
         self.reparse_failures = []
         self.hooks = []  # fn(origin, sender, message) called before routing
         self.drivers = {}
@@ -102,9 +104,17 @@ class Stack:
                 origin, sname = "client", type(sender).__name__
             v = view_of_message(message)
             self.router_log.append((origin, sname, v))
+            # what this message is an answer to: the client-originated message being routed right now, if any
+            self.router_cause.append(self._cause_stack[-1] if self._cause_stack else None)
             sim.log("router", origin, short(v, 120))
             for h in self.hooks:
                 h(origin, sender, message)
+            if origin != "driver":
+                self._cause_stack.append(message.tag_name())
+                try:
+                    return orig(message, sender)
+                finally:
+                    self._cause_stack.pop()
             return orig(message, sender)
 
         router.process_message = pm
